@@ -236,9 +236,24 @@ def catalogue(tier="quick", mode="r1"):
                     pops=("p0", "p1"), transfers=[("age", "p0", "p1", "number", [0, 10, 500]), ("mig", "p1", "p0", "duration", [F(1, 4), 5])], glob=False))
     # 12 residual junction alone, fed by a source (births split into groups), proportions sum > 1 and < 1
     S.append(struct("resj", [("src", "source"), ("k", "resjunction"), ("a", "normal"), ("b", "normal"), ("c", "normal"), ("d", "sink")],
-                    [("birth", "number", 1, [0, 12]), ("q1", "proportion", None, [0, F(1, 4), F(3, 4)]), ("q2", "proportion", None, [0, F(1, 2), 1]), ("die", "probability", 1, [F(1, 2), 9])],
+                    [("birth", "number", F(1, 12), [0, 1]), ("q1", "proportion", None, [0, F(1, 4), F(3, 4)]), ("q2", "proportion", None, [0, F(1, 2), 1]), ("die", "probability", 1, [F(1, 2), 9])],
                     [("src", "k", "birth"), ("k", "a", "q1"), ("k", "b", "q2"), ("k", "c", ">"), ("a", "d", "die"), ("b", "d", "die"), ("c", "d", "die")],
                     F(1, 4), {"a": [0, 10], "b": [0, 3], "c": [0], "d": [0]}, jinit={"k": [0, 5]}))
+    # 12b D/dt non-integer (2.4 -> 3 rows) and D/dt >> 1 (24 rows)
+    S.append(struct("tfrac", [("a", "normal"), ("v", "timed", "dur"), ("d", "sink")],
+                    [("vac", "probability", 1, [0, 3]), ("dur", "duration", 1, [F(3, 5)], True), ("mort", "rate", 1, [0, 2])],
+                    [("a", "v", "vac"), ("v", "a", "dur"), ("v", "d", "mort")],
+                    F(1, 4), {"a": [0, 100], "v": [[0, 0, 0], [1, 2, 3], [0, 0, 60]], "d": [0]}))
+    S.append(struct("tlong", [("a", "normal"), ("v", "timed", "dur"), ("d", "sink")],
+                    [("vac", "probability", 1, [0, 3]), ("dur", "duration", F(1, 12), [24], True), ("mort", "rate", 1, [0, 2])],
+                    [("a", "v", "vac"), ("v", "a", "dur"), ("v", "d", "mort")],
+                    F(1, 12), {"a": [0, 100], "v": [[1, 2, 3, 4, 5, 6], [0, 0, 0, 0, 0, 60]], "d": [0]}))
+    # 13 residual junction inside a duration group (row-wise residual), proportions summing below and above 1
+    S.append(struct("tresj", [("a", "normal"), ("v", "timed", "dur"), ("k", "resjunction", "dur"), ("w", "timed", "dur"), ("x", "timed", "dur"), ("d", "sink")],
+                    [("vac", "probability", 1, [0, 2]), ("dur", "duration", 1, [F(3, 4)], True), ("go", "probability", 1, [0, 1, 8]),
+                     ("q1", "proportion", None, [0, F(1, 4), F(3, 2)]), ("mort", "rate", 1, [0, 2])],
+                    [("a", "v", "vac"), ("v", "a", "dur"), ("w", "a", "dur"), ("x", "d", "dur"), ("v", "k", "go"), ("k", "w", "q1"), ("k", "x", ">"), ("w", "d", "mort")],
+                    F(1, 4), {"a": [0, 64], "v": [[1, 2, 3], [0, 16, 5]], "w": [[0, 0, 0], [4, 5, 6]], "x": [[0, 0, 0], [2, 0, 1]], "d": [0]}))
     if tier == "thorough":
         more = []
         for s in S:
@@ -274,6 +289,14 @@ def catalogue_r2(tier="quick"):
                      ("p1", "proportion", None, [F(1, 2)]), ("p2", "proportion", None, [0, F(3, 2)])],
                     [("a", "v", "vac"), ("v", "a", "dur"), ("w", "a", "dur"), ("x", "d", "dur"), ("v", "j", "go"), ("j", "w", "p1"), ("j", "x", "p2")],
                     F(1, 4), {"a": [64], "v": [[0, 0], [8, 16]], "w": [[0, 0]], "x": [[0, 0], [2, 0]], "d": [0]}))
+    S.append(struct("r2_tfrac", [("a", "normal"), ("v", "timed", "dur"), ("d", "sink")],
+                    [("vac", "probability", 1, [0, 2]), ("dur", "duration", 1, [F(3, 5)], True), ("mort", "rate", 1, [0, 2])],
+                    [("a", "v", "vac"), ("v", "a", "dur"), ("v", "d", "mort")],
+                    F(1, 4), {"a": [64], "v": [[0, 0, 0], [8, 0, 16]], "d": [0]}))
+    S.append(struct("r2_tresj", [("a", "normal"), ("v", "timed", "dur"), ("k", "resjunction", "dur"), ("w", "timed", "dur"), ("x", "timed", "dur"), ("d", "sink")],
+                    [("vac", "probability", 1, [0, 2]), ("dur", "duration", 1, [F(1, 2)], True), ("go", "probability", 1, [0, 2]), ("q1", "proportion", None, [F(1, 4), 2])],
+                    [("a", "v", "vac"), ("v", "a", "dur"), ("w", "a", "dur"), ("x", "d", "dur"), ("v", "k", "go"), ("k", "w", "q1"), ("k", "x", ">")],
+                    F(1, 4), {"a": [64], "v": [[0, 0], [8, 16]], "w": [[0, 0]], "x": [[0, 0], [4, 0]], "d": [0]}))
     S.append(struct("r2_junc", [("a", "normal"), ("j", "junction"), ("k", "resjunction"), ("b", "normal"), ("c", "normal"), ("d", "sink")],
                     [("r1", "probability", 1, [0, 1]), ("p1", "proportion", None, [F(1, 4)]), ("p2", "proportion", None, [F(1, 4), F(7, 4)]),
                      ("q1", "proportion", None, [F(1, 4)]), ("q2", "proportion", None, [0, F(7, 4)]), ("r3", "rate", 1, [1])],
